@@ -157,7 +157,7 @@ func panicSite(st string) string {
 		}
 		if seenPanic && strings.Contains(l, "github.com/Comcast/rulio/") && !strings.HasPrefix(l, "\t") {
 			s := l
-			if i := strings.Index(s, "("); i > 0 {
+			if i := strings.LastIndex(s, "("); i > 0 {
 				s = s[:i]
 			}
 			return strings.TrimPrefix(s, "github.com/Comcast/rulio/")
